@@ -295,9 +295,12 @@ def r4(ctx):
                 cnd = strip(x["c"])
                 asg = [y for y in walk(x["th"]) if y.get("k") == "assign"]
                 if cnd.get("k") == "bin" and cnd["op"] == "Eq" and len(asg) == 1:
-                    tested = pretty(strip(cnd["l"]))
+                    lhs_, rhs_ = cnd["l"], cnd["r"]
+                    if e4.lit_value(lhs_) is not None and e4.lit_value(rhs_) is None:   # `0.0 == field`
+                        lhs_, rhs_ = rhs_, lhs_
+                    tested = pretty(strip(lhs_))
                     assigned = pretty(strip(asg[0]["l"]))
-                    ctx.check("R03.4", "%s:default:%s" % (kind, assigned.split(".")[-1]), tested == assigned and e4.lit_value(cnd["r"]) in ("0.0", "0."),
+                    ctx.check("R03.4", "%s:default:%s" % (kind, assigned.split(".")[-1]), tested == assigned and e4.lit_value(rhs_) in ("0.0", "0."),
                               "default-tests-other-field:" + tested, c.loc(fn, x), "if %s == 0.0 { %s = default }" % (tested, assigned),
                               "the zero test is on `%s` but the default is assigned to `%s`" % (tested, assigned))
         got = sorted({strip(y["l"])["f"] for y in walk(a["body"]) if y.get("k") == "assign" and strip(y["l"]).get("k") == "field" and strip(y["l"])["f"] in ("velocity", "momentum", "gradient", "buffer")
